@@ -45,8 +45,8 @@ class Capture:
             rec['rule_obj'] = slf
             return o_apply(slf, f_del, h, step_ratio)
 
-        def rrule(slf, sequence_length=None):
-            w = o_rrule(slf, sequence_length)
+        def rrule(slf, *a, **kw):
+            w = o_rrule(slf, *a, **kw)
             rec.setdefault('rr', []).append(np.array(w, copy=True))
             return w
         from numdifftools import limits as lim
@@ -152,6 +152,17 @@ def context_certificate(rec):
     finally:
         fdm.FD_RULES.clear()
         fdm.FD_RULES.update(saved)
+    # the Richardson rule of the same call: the weights applied must be those of (ratio of the steps, richardson_step, method_order)
+    try:
+        from numdifftools.extrapolation import Richardson
+        rr_used = np.atleast_1d(rec['rr'][-1]) if rec.get('rr') else None
+        if rr_used is not None and rr_used.size >= 2:
+            rr_fresh = np.atleast_1d(Richardson(step_ratio=r_apply, step=obj.richardson_step, order=obj.method_order, num_terms=rr_used.size - 1).rule())
+            if rr_used.shape != rr_fresh.shape or not np.allclose(rr_used, rr_fresh, rtol=1e-10, atol=1e-12 * float(np.max(np.abs(rr_fresh)))):
+                return 'the Richardson weights applied %r are not those of (step_ratio=%r, step=%d, order=%d) computed by a fresh Richardson object: %r' % (
+                    rr_used.tolist(), r_apply, obj.richardson_step, obj.method_order, rr_fresh.tolist())
+    except Exception:   # noqa
+        pass
     used = np.atleast_1d(rec['rule'])
     if used.shape != fresh.shape or not np.allclose(used, fresh, rtol=1e-12, atol=1e-12 * float(np.max(np.abs(fresh)))):
         return 'the rule applied %r is not the rule of (%s, n=%d, order=%d) for the ratio %r computed afresh with an empty cache: %r' % (
